@@ -487,9 +487,40 @@ AT_SPELL = {'fmt0': '{0}', 'fmtx': '{x}', 'pcts': '%s', 'pctmap': '%(a)s', 'bsla
 AT_AUTHOR_MSG = 'use {0} and {x}, or %s %(a)s, not a\\b\nsecond line'
 
 
+# ten concrete formulas per array situation of AnticipatedText (selected by the position of the "spelling")
+AT_ARRAY = {
+    'arrayPowNonInt': ['A^2.5', 'A^0.5', 'A^(1/2)', 'A^-1.5', 'A^(x_{0}/2)', 'A^pi', 'A^e', 'A^(2+0.1)', 'A^1.0001', '[[1,2],[3,4]]^0.5'],
+    'arrayPowComplex': ['A^i', 'A^(2+0*i)', 'A^(3*j)', 'A^(1+i)', '[[1,2],[3,4]]^i', 'A^(i^2)', 'A^(2*i/i)', 'A^(i*i*i*i)', 'A^-i', 'A^(x_{0}*i)'],
+    'arrayPowArray': ['A^A', '2^A', 'A^v', 'x_{0}^v', 'v^v', 'e^A', '2^[1,2]', 'A^[[1,0],[0,1]]', 'A^B', 'i^A'],
+    'arrayAddScalar': ['A+1', '1+A', 'A-2', 'v+1', '[1,2]+3', 'A+x_{0}', 'x_{0}-v', 'v-i', 'B+0.5', '2*A+1'],
+    'arrayShape': ['A+v', 'v+[1,2,3]', 'A*[1,2,3]', '[1,2]*[1,2,3]', 'A-B', 'B*B', 'B*v', '[1,2,3]*A', 'v-A', 'A+[[1,2,3],[4,5,6]]'],
+    'arrayDivide': ['1/A', 'A/A', 'v/v', '2/[1,2]', 'A/v', 'x_{0}/A', 'v/A', 'B/B', '1/v', 'A/[[1,0],[0,1]]'],
+    'notSquarePow': ['v^2', '[1,2]^2', 'v^-1', 'B^2', 'B^-1', 'v^0', '[[1,2,3],[4,5,6]]^3', 'v^x_{0}', 'B^0', '[1,2,3]^1'],
+    'singularInverse': ['[[1,2],[2,4]]^-1', '[[0,0],[0,0]]^-1', '[[1,1],[1,1]]^-2', '(A-A)^-1', '[[1,2],[2,4]]^-3', '[[2,0],[0,0]]^-1',
+                        '(A*0)^-1', '[[1,2,3],[4,5,6],[7,8,9]]^-1', '[[0,1],[0,0]]^-1', '[[1,2],[3,6]]^-1'],
+    'tripleVector': ['v*v*v', '[1,2]*[3,4]*[5,6]', 'v*2*v*v', 'v*v*v*v', '[1,0]*[0,1]*[1,1]', 'v*v*2*v', 'x_{0}*v*v*v', 'v*[1,2]*v',
+                     '[1,2]*v*[3,4]', 'v*v*v*2'],
+}
+
+
+def at_array_grader():
+    if 'array' not in _AT_ARRAY:
+        from mitxgraders import MatrixGrader
+        from mitxgraders.helpers.calc import MathArray
+        _AT_ARRAY['array'] = MatrixGrader(
+            answers='x_{0}', variables=['x_{0}'], sample_from={'x_{0}': [5, 5]}, max_array_dim=2,
+            user_constants={'A': MathArray([[1, 2], [3, 4]]), 'v': MathArray([1, 2]), 'B': MathArray([[1, 2, 3], [4, 5, 6]])})
+    return _AT_ARRAY['array']
+
+
+_AT_ARRAY = {}
+
+
 def at_other(sit, sp):
     """an anticipated problem outside the formula language -> (grader, input, requirement)"""
     from mitxgraders import IntervalGrader, SumGrader, SingleListGrader, StringGrader
+    if sit in AT_ARRAY:
+        return at_array_grader(), AT_ARRAY[sit][sorted(AT_SPELL).index(sp)], 'single'
     t = AT_SPELL[sp]
     if sit == 'intervalOpen':
         return IntervalGrader(answers='[1,2]'), t[0] + '1,2]', 'single'
@@ -1299,7 +1330,7 @@ def replay(ctx, rec):
         return not any(v.startswith('family') for v in rej.values())
     if sig.get('part') == 'anticipated':
         if sig['tokens'][0] in ('intervalOpen', 'intervalClose', 'sumVariable', 'listBlank', 'listLength',
-                                'stringPattern', 'stringShort'):
+                                'stringPattern', 'stringShort') or sig['tokens'][0] in AT_ARRAY:
             g, inp, req = at_other(*sig['tokens'])
             subs = [(sig['to'], g, inp, req)]
         else:
